@@ -509,3 +509,40 @@ package seccomp
 // a closed block behind an explicit prefix: jumps of the prefix are checked where the prefix is built
 //@ lemma catClosedPrefix(R []bpf.Instruction, P []bpf.Instruction, Q []bpf.Instruction)
 //@   ensures isCat(R, P, Q) && closed(Q) && forall(j, 0, len(P), insnOK(R, j)) ==> closed(R)
+
+// ---------------------------------------------------------------------------
+// Text forms (C13 C14)
+// ---------------------------------------------------------------------------
+
+//@ func (a Action) String() string   properties C13 C14
+//@   ensures @known has(actionNames, a) ==> result == actionNames[a]
+//@   ensures @unknown !has(actionNames, a) ==> result == "unknown"
+
+//@ func (a *Action) Unpack(s string) error   properties C13 C14
+//@   requires a != nil
+//@   modifies a
+//@   let ls = tolower(s)
+//@   ensures @known {C14} existsk(x, actionNames, has(actionNames, x) && actionNames[x] == ls) ==> result == nil && has(actionNames, *a) && actionNames[*a] == ls
+//@   ensures @unknown {C14} !existsk(x, actionNames, has(actionNames, x) && actionNames[x] == ls) ==> result != nil && *a == old(*a)
+//@   loop 1 binder vis
+//@     invariant @none forallk(x, actionNames, vis[x] ==> actionNames[x] != s)
+//@     invariant @frame a != nil && *a == old(*a)
+
+// what Unpack's postcondition yields for the printed form of a named action determines the action (names are pairwise distinct)
+//@ lemma actionRoundTrip(a Action, a2 Action)   properties C14
+//@   ensures has(actionNames, a) && has(actionNames, a2) && actionNames[a2] == tolower(actionNames[a]) ==> a2 == a
+//@ lemma actionNamesLower(a Action)   properties C14
+//@   ensures has(actionNames, a) ==> tolower(actionNames[a]) == actionNames[a]
+
+//@ func (o *Operation) Unpack(s string) error   properties C14
+//@   requires o != nil
+//@   modifies o
+//@   let ls = tolower(s)
+//@   ensures @known {C14} exists(j, 0, len(Operations), tolower(Operations[j]) == ls) ==> result == nil && tolower(*o) == ls && exists(j, 0, len(Operations), Operations[j] == *o)
+//@   ensures @unknown {C14} !exists(j, 0, len(Operations), tolower(Operations[j]) == ls) ==> result != nil && *o == old(*o)
+//@   loop 1 binder k
+//@     invariant @none forall(j, 0, k, tolower(Operations[j]) != s)
+//@     invariant @frame o != nil && *o == old(*o)
+
+//@ lemma operationRoundTrip(o Operation, o2 Operation)   properties C14
+//@   ensures knownOp(o) && knownOp(o2) && tolower(o2) == tolower(o) ==> o2 == o
